@@ -57,6 +57,19 @@ fn check_pair(a: Value, b: Value, expect: Option<Ordering>) {
 #[cfg_attr(kani, kani::proof)]
 #[cfg_attr(kani, kani::unwind(6))]
 pub fn c09_cmp_int_float_exact() {
+    // one call: this is the contract `cmp_int_float(i, f) == icmpf(i, f)` that the Verus proof of eq / partial_cmp relies on
+    // (the reversed order and the equality arms are derived from it there)
+    let a: i64 = any();
+    let f: f64 = any();
+    let (x, y) = (Value::Int(a), Value::Float(f));
+    assert!(x.partial_cmp(&y) == oracle_cmp(a as i128, f));
+    forget(x);
+    forget(y);
+}
+/// the three derived relations on the compiled code as well (thorough tier: four float comparisons per path)
+#[cfg_attr(kani, kani::proof)]
+#[cfg_attr(kani, kani::unwind(6))]
+pub fn c09_cmp_int_float_coherent() {
     let a: i64 = any();
     let f: f64 = any();
     check_pair(Value::Int(a), Value::Float(f), oracle_cmp(a as i128, f));
@@ -64,6 +77,16 @@ pub fn c09_cmp_int_float_exact() {
 #[cfg_attr(kani, kani::proof)]
 #[cfg_attr(kani, kani::unwind(6))]
 pub fn c09_cmp_uint_float_exact() {
+    let a: u64 = any();
+    let f: f64 = any();
+    let (x, y) = (Value::UInt(a), Value::Float(f));
+    assert!(x.partial_cmp(&y) == oracle_cmp(a as i128, f));
+    forget(x);
+    forget(y);
+}
+#[cfg_attr(kani, kani::proof)]
+#[cfg_attr(kani, kani::unwind(6))]
+pub fn c09_cmp_uint_float_coherent() {
     let a: u64 = any();
     let f: f64 = any();
     check_pair(Value::UInt(a), Value::Float(f), oracle_cmp(a as i128, f));
